@@ -967,7 +967,10 @@ static int sexp_check_type(sexp ctx, sexp a, sexp b) {
 }
 
 #if SEXP_USE_GREEN_THREADS
+/* a foreign function may call back into the VM, which may grow (and so
+   replace) the stack: reload the pointer before touching the stack again */
 #define sexp_fcall_return(x, i)                             \
+  stack = sexp_stack_data(sexp_context_stack(ctx));         \
   if (sexp_exceptionp(x)) {                                 \
     if (x == sexp_global(ctx, SEXP_G_IO_BLOCK_ERROR)) {     \
       fuel = 0; ip--; goto loop;                            \
@@ -987,6 +990,7 @@ static int sexp_check_type(sexp ctx, sexp a, sexp b) {
   }
 #else
 #define sexp_fcall_return(x, i)                                 \
+  stack = sexp_stack_data(sexp_context_stack(ctx));             \
   top -= i; _ARG1 = x; ip += sizeof(sexp); sexp_check_exception();
 #endif
 
